@@ -305,8 +305,13 @@ def compare(fr, op, l, r, node):
             return hit if isinstance(op, ast.In) else not hit
         if isinstance(r, dict) and not is_abs(l):
             return (l in r) if isinstance(op, ast.In) else (l not in r)
-        if isinstance(r, dict) and not r:
-            return isinstance(op, ast.NotIn)
+        if isinstance(r, dict):
+            try:
+                hit = l in r
+            except TypeError:
+                hit = False
+            if hit or not r:
+                return hit if isinstance(op, ast.In) else not hit
         if isinstance(r, (bytes, str)) and not is_abs(l):
             return (l in r) if isinstance(op, ast.In) else (l not in r)
         if isinstance(r, AOpq) or isinstance(l, AOpq):
@@ -508,9 +513,17 @@ def getattr_(fr, base, attr, node):
         ci = base.info
         if repo.class_attr_owner(ci, attr) is not None:
             try:
-                return fresh(repo.class_const(ci, attr))
+                v = repo.class_const(ci, attr)
             except Unfoldable as e:
                 return I.opaque(f"{ci.name}.{attr}: {e}")
+            if isinstance(v, (dict, list, set, BitArr)):
+                # mutable class-level object: one instance per analysed path (process state within the path)
+                key = (repo.class_attr_owner(ci, attr).qualname, attr)
+                cs = I.st.__dict__.setdefault("class_state", {})
+                if key not in cs:
+                    cs[key] = fresh(v)
+                return cs[key]
+            return v
         m = repo.find_method(ci, attr)
         if m is not None:
             return FuncRef(m, ci)
@@ -638,6 +651,11 @@ def subscript(fr, base, sl, node):
             raise PathRaise("IndexError", str(e))
     if isinstance(base, dict):
         if is_abs(i):
+            try:
+                if i in base:
+                    return base[i]
+            except TypeError:
+                pass
             if isinstance(i, AEnum):
                 for k in base:
                     if isinstance(k, EnumMember) and I.decide(eq(fr, i, k, node), f"dictkey:{node.lineno}"):
